@@ -323,7 +323,58 @@ func c01Scenarios(th bool) []*Scn {
 			}
 		}
 	}
+	// several peers with Established sessions at shutdown
+	for _, n := range []int{2, 3} {
+		for _, t := range []int{0, 3000} {
+			out = append(out, c01MultiScn(n, t, bound))
+		}
+	}
 	return out
+}
+
+// c01MultiScn: n passive peers (10.0.0.2, .3, .4) all Established through inbound
+// connections, then Close; every session must get its OnClose before Close returns.
+func c01MultiScn(n, atMs, bound int) *Scn {
+	name := fmt.Sprintf("multi/%dpeers/time%d", n, atMs)
+	return &Scn{Name: name, Bound: bound, Run: func(ch vrt.Chooser, trace bool) *ScnResult {
+		var w *world.World
+		e := vrt.Run(vrt.Config{Horizon: int64(30 * time.Second), Trace: trace, Chooser: ch}, func() {
+			w = world.New(libIP)
+			w.NewServer(libIP)
+			for i := 0; i < n; i++ {
+				ip := fmt.Sprintf("10.0.0.%d", 2+i)
+				pl := &world.Plugin{W: w, Peer: fmt.Sprintf("P%d", i+1), Marker: true}
+				if err := w.Server.AddPeer(peerConfig(ip, 65001, uint32(65002+i)), pl, corebgp.WithPassive()); err != nil {
+					panic("harness: " + err.Error())
+				}
+			}
+			w.Serve(libAddr)
+			for i := 0; i < n; i++ {
+				i := i
+				vrt.GoWorld(fmt.Sprintf("remote-in%d", i), func() {
+					c, err := w.NW.DialIn(fmt.Sprintf("10.0.0.%d:4000%d", 2+i, i), libAddr)
+					if err != nil {
+						return
+					}
+					r := w.NewRemote(c, fmt.Sprintf("P%d", i+1))
+					r.Send(wire.Open(uint32(65002+i), 90, uint32(0x0a000002+i)))
+					r.Send(wire.Keepalive())
+					r.Send(wire.Update([]byte("U1")))
+					r.Deadline(25 * time.Second)
+					r.Drain()
+					r.Finish()
+				})
+			}
+			if atMs > 0 {
+				vrt.Sleep(time.Duration(atMs) * time.Millisecond)
+			}
+			vrt.WaitQuiescent()
+			w.Close()
+			w.WaitServeDone()
+			vrt.WaitQuiescent()
+		})
+		return finishRun("C01", "callbacks", w, e, trace, false, func() (string, string) { return monitorCallbacks(w) }, nil)
+	}}
 }
 
 func c01Check(c *harness.Ctx) {
@@ -343,6 +394,11 @@ func c01Check(c *harness.Ctx) {
 }
 
 func c01Lookup(name string) *Scn {
+	if strings.HasPrefix(name, "multi/") {
+		var n, t int
+		fmt.Sscanf(name, "multi/%dpeers/time%d", &n, &t)
+		return c01MultiScn(n, t, 3)
+	}
 	var p c01Params
 	parts := strings.Split(name, "/")
 	if len(parts) != 6 {
